@@ -153,6 +153,18 @@ def fam_arith(tier, rng):
         for tt in NUMT:
             b = B()
             out.append({"fam": "div-store:" + tt, "prog": prog([b.let(var("A", "L"), num(x)), b.let(var("T", tt), bin_("/", var("A", "L"), num(y))), b.print(var("T", tt))])})
+    # quotients that are not whole numbers, stored into every type from every pair of operand types: a whole-number
+    # variable must end up with a whole number (the spec does not predict which one: judged by the monitor)
+    for x, y in [(1, 3), (2, 3), (7, 3), (-7, 3), (100000, 3), (1, 7)]:
+        for ta in ("I", "L", "S", "D"):
+            for tb in ("I", "L"):
+                if not (fits(ta, x) and fits(tb, y)):
+                    continue
+                for tt in NUMT:
+                    b = B()
+                    out.append({"fam": "div-frac:%s%s>%s" % (ta, tb, tt),
+                                "prog": prog([b.let(var("A", ta), num(x)), b.let(var("B", tb), num(y)),
+                                              b.let(var("T", tt), bin_("/", var("A", ta), var("B", tb))), b.print(lit("$", "ok"))])})
     return out
 
 
